@@ -633,6 +633,7 @@ func (w *World) beginStep() {
 	w.expAdd = w.expAdd[:0]
 	w.optAdd = w.optAdd[:0]
 	w.inPass = false
+	w.dumped = false
 	w.errSink = nil
 }
 
@@ -658,6 +659,20 @@ func (w *World) CheckC13(op string) *Violation {
 	phase := "add"
 	if w.inPass {
 		phase = "render"
+	}
+	if w.foreignFired > 0 {
+		w.foreignFired = 0
+		return v("other-tables-callback-fired", "a callback registered on ANOTHER table fired for a cell that was copied by value out of that table into this one")
+	}
+	if w.dumped {
+		// printing the table is not a render pass and adds nothing: no callback of
+		// any kind has a reason to fire
+		w.dumped = false
+		for _, ev := range w.cbEvents {
+			if cb := w.regByID(ev.reg); cb != nil {
+				return v("fired-by-printing:"+ownNames[cb.owner]+"/"+timeNames[cb.time]+"/"+targetNames[cb.target], "%v fired while the table was being printed with %%#v", ev)
+			}
+		}
 	}
 	// every event: target must be the live object
 	var listedEv []cbEvent
